@@ -13,3 +13,21 @@ package xsub
 //@   immutable: closeQ
 //@   elem_invariant recvQ: !shared(elem)
 //@
+// ---- generated option contracts (tools/gen_option_contracts.py) ----
+//@ func (*socket).SetOption
+//@   ensures name != protocol.OptionRecvDeadline && name != protocol.OptionReadQLen ==> result == protocol.ErrBadOption
+//@   ensures name == protocol.OptionRecvDeadline ==> (isnil(result) <==> is_duration(value))
+//@   ensures name == protocol.OptionRecvDeadline && !isnil(result) ==> result == protocol.ErrBadValue
+//@   ensures name == protocol.OptionRecvDeadline && isnil(result) ==> s.recvExpire == int_of(value)
+//@   ensures name == protocol.OptionReadQLen ==> (isnil(result) <==> is_int(value) && 0 <= int_of(value))
+//@   ensures name == protocol.OptionReadQLen && !isnil(result) ==> result == protocol.ErrBadValue
+//@   ensures name == protocol.OptionReadQLen && isnil(result) ==> s.recvQLen == int_of(value)
+//@   ensures !isnil(result) ==> unchanged(s.recvExpire, s.recvQLen)
+//@
+//@ func (*socket).GetOption
+//@   ensures option != protocol.OptionRecvDeadline && option != protocol.OptionReadQLen && option != protocol.OptionRaw ==> result1 == protocol.ErrBadOption && isnil(result0)
+//@   ensures option == protocol.OptionRecvDeadline ==> isnil(result1) && result0 == iface(s.recvExpire)
+//@   ensures option == protocol.OptionReadQLen ==> isnil(result1) && result0 == iface(s.recvQLen)
+//@   ensures option == protocol.OptionRaw ==> isnil(result1) && result0 == iface(true)
+//@
+// ---- end generated option contracts ----
